@@ -216,11 +216,12 @@ def sleep_action_tables(rep: Report, rid: str, prog: Program) -> None:
     the handler's answer lives in a helper or in the sleep step itself is the code's business"""
     state = ("param", "state")
     hd_q = f"{HELPERS}:_handle_sleep_decision"
-    if hd_q in prog.funcs:
-        rep.analysed(hd_q)
+    for q0, f0 in prog.funcs.items():
+        if f0.name == "_handle_sleep_decision" and f0.cls is None:
+            rep.analysed(q0)
     eng = engine(prog)
     inline0 = eng.inline
-    eng.inline = lambda f, inline0=inline0: bool(inline0 and inline0(f)) or f.qual == hd_q
+    eng.inline = lambda f, inline0=inline0: bool(inline0 and inline0(f)) or (f.name == "_handle_sleep_decision" and f.cls is None)  # (by name: it may have moved to another module)
     try:
         for fn in ("_sync_sleep_action", "_async_sleep_action"):
             fi = prog.func(f"{HELPERS}:{fn}")
